@@ -35,7 +35,10 @@ CORPUS = [
 
 def algos_for(case):
     has = any("f" in l for _, l in solvers._leaves(case["O"]))
-    return [a for a in ALGOS if has or MODE[a] == "plain"]
+    out = [a for a in ALGOS if has or MODE[a] == "plain"]
+    if case.get("only") == "unordered":
+        out = [a for a in out if MODE[a] == "unordered"]
+    return out
 
 
 def judge(ctx, res, runs):
@@ -144,16 +147,25 @@ def corpus(ctx, res):
 
 def gen_cases(ctx):
     rng = ctx.rng
-    n = ctx.budget(220, 3000)
+    n = ctx.budget(700, 5000)
     out = []
     for _ in range(n):
         k = rng.random()
-        if k < 0.3:
+        if k < 0.15:
             c = gen.rand_case(rng, 5, 5, 0, costs=any_costs(rng))
-        elif k < 0.65:
+        elif k < 0.35:
             c = gen.rand_case(rng, 4, 4, rng.randint(1, 3), plain=False, costs=any_costs(rng))
-        elif k < 0.85:
+        elif k < 0.5:
             c = gen.rand_case(rng, 5, 4, rng.randint(1, 4), plain=False, unordered=True, costs=any_costs(rng))
+        elif k < 0.6:
+            # two internal INHERIT siblings, a private gain on one side, tie-prone costs (decoder sharing bugs)
+            c = gen.sibling_inherit_case(rng)
+        elif k < 0.8:
+            # the unordered generator of C03/C05 (deeper trees, label-driven costs, clade-confined families): the
+            # decoder's sharing bugs need two internal INHERIT siblings at depth >= 2 and a tie
+            c = solvers.unordered_case(ctx, rng, 5, 4, 4)
+            if rng.random() < 0.3:
+                c["costs"] = dict(solvers.full_costs(c), sloss=0)
         else:
             # larger balanced trees with clade-structured families (sibling INHERIT chains), tie-prone costs
             # (unordered only: the ordered solvers enumerate every root order and are far too slow here)
